@@ -356,14 +356,11 @@ def run_c07(ctx):
     n = _tier(ctx, 10, 120)
     jobs = pc.corpus_jobs(['S8_*.scn', 'S9_*.scn']) + pc.generated_jobs('C07', ctx['seed'], n, ['promotion'], npeers=2)
     jobs += pc.generated_jobs('C07m', ctx['seed'], max(2, n // 5), ['promotion'], npeers=3)
-    # with more than one client the session enters the known-finding state S8 (both chains active on
-    # the old host): the model's uuid convention (uuid := entity id) is not faithful there
     out = pc.run_scenarios('C07', ctx, jobs, [_c07_oracle], nontrivial=pc.received_kinds)
-    out['diffs'] = [d for d in out['diffs'] if not d.startswith('C07m_')]
     nrep, nskip = _absprom(out)
     out['opstats']['promotion_model_reachability_checks'] = nrep
     out['opstats']['promotion_model_checks_outside_premises'] = nskip
-    return pc.make_result('C07', ctx, out, 'frames of promotion histories (prior content, promotion, writes resumed on both sides); one client (the case that works) and two clients (known finding S8); non-trivial = distinct (scenario, receiver, kind, key) received',
+    return pc.make_result('C07', ctx, out, 'frames of promotion histories (prior content, promotion, writes resumed on both sides); one client and two clients (with the 15 s netcode time-out of the old host stale connections elapsed); non-trivial = distinct (scenario, receiver, kind, key) received',
                           assumptions=['UDP bind conflicts and netcode time-outs are outside the model (partial)'])
 
 
